@@ -2,7 +2,7 @@
 from ..facts import Program, Inconclusive, op_place
 from ..flow import Ev, walk, resolve_upvars, show, strip
 from ..gate import Classifier, linear
-from ..util import calls, one_call, field_stores, ok_return_blocks, must_pass, try_continue_block, last_field, follow_copies
+from ..util import calls, one_call, field_stores, ok_return_blocks, must_pass, try_continue_block, last_field, follow_copies, call_sites_incl_closures, forwarding_sites
 
 WTP = "sierradb::writer_thread_pool::"
 WS = WTP + "WriterSet"
@@ -122,7 +122,7 @@ def run(chk, facts_dir, tier):
                 chk.fail("R1.2", WS + "::sync", "publish-before-sync", "the synced offset is published without a preceding successful fsync, or with a value that is not the fsync's result (%s)" % show(val)[:80], sb, t["line"])
             # R1.3
             drains = calls(sb, "std::vec::Vec::<T, A>::drain")
-            ins = {k: calls(sb, k) for k in ("sierradb::bucket::event_index::OpenEventIndex::insert",
+            ins = {k: call_sites_incl_closures(prog, sb, k) for k in ("sierradb::bucket::event_index::OpenEventIndex::insert",
                                               "sierradb::bucket::partition_index::open::OpenPartitionIndex::insert",
                                               "sierradb::bucket::stream_index::open::OpenStreamIndex::insert")}
             after = sb.reach_after([bi])
@@ -274,7 +274,7 @@ def run(chk, facts_dir, tier):
     # ---------------- R1.6
     ro = calls(hb, WS + "::rollover")
     hw = calls(hb, WS + "::handle_write")
-    sl = calls(hb, BSW + "set_len")
+    sl = forwarding_sites(prog, hb, BSW + "set_len", 1)
     if len(hw) != 1 or len(sl) != 1:
         raise Inconclusive("handle_append_events: expected one handle_write and one set_len")
     p = op_place(sl[0][1]["args"][1])
